@@ -485,4 +485,10 @@ def cfg_life():
     """all 24 director-less services; echo and memcached also over udp"""
     toml = cfg_all(ALL_SERVICES)
     toml += '[[port]]\nport="udp/7"\nservices=["echo"]\n'
+    # ports shared by several services: the server waits for the first bytes itself (payload detectors) before a service runs
+    for port, members in SHARED_PORTS.items():
+        toml += '[[port]]\nport="tcp/%d"\nservices=[%s]\n' % (port, ", ".join('"%s"' % m.replace("-", "_") for m in members))
     return toml
+
+
+SHARED_PORTS = {8000: ["http", "telnet"], 8001: ["ssh-simulator", "echo"], 8002: ["docker", "cwmp", "redis"]}
